@@ -303,7 +303,10 @@ def hexList (s : String) : List (List UInt8) :=
 /-- `dsqrt`: predicted chunking and content digest of a database written from the given records and read back -/
 def dsqrt (ws : List String) : String :=
   match arg? ws "abc", argNat? ws "maxseq", argNat? ws "maxpacket", arg? ws "names", arg? ws "descs", arg? ws "dsq" with
-  | some abc, some maxseq, some maxpacket, some names, some descs, some dsq =>
+  | some abc, some maxseq0, some maxpacket0, some names, some descs, some dsq =>
+    -- hook value 0 = the library's defaults (eslDSQDATA_CHUNK_MAXSEQ, eslDSQDATA_CHUNK_MAXPACKET)
+    let maxseq := if maxseq0 = 0 then 4096 else maxseq0
+    let maxpacket := if maxpacket0 = 0 then 262144 else maxpacket0
     let names := hexList names
     let descs := hexList descs
     let ds := hexList dsq
@@ -311,6 +314,8 @@ def dsqrt (ws : List String) : String :=
     let accs := if raw then hexList ((arg? ws "accs").getD "-") else names.map fun _ => []
     let taxids : List Int := if raw then (((arg? ws "taxids").getD "").splitOn ",").filterMap String.toInt? else []
     let amino := abc == "amino"
+    -- esl_dsqdata_Write refuses sequences of 6 * eslDSQDATA_CHUNK_MAXPACKET residues or more (only the library writer)
+    if arg? ws "writer" != some "raw" && ds.any (fun d => d.length ≥ 6 * 262144) then "write-eunimplemented" else
     let packs := ds.map fun d => if amino then pack5 d else pack2 d
     let metas := (names.zip (accs.zip descs)).map fun (n, a, d) => n.length + 1 + a.length + 1 + d.length + 1 + 4
     let idx := indexOf ((packs.map List.length).zip metas) 0 0
